@@ -950,7 +950,11 @@ def yaml_alias_builder_check(ctx):
     got = (lctx.get_target_language().get_option("zz_shared"), lctx.get_language("cpp").get_option("zz_shared"),
            lctx.get_language("cpp").get_option("zz_only_c", "absent"))
     ctx.count("yaml_alias_builder_checks")
-    if got != (2, 1, "absent"):
+    if got[0] != 2 or got[1] not in (1, 2):
+        ctx.fail({"kind": "file-precedence", "via": "language-object"},
+                 "a file that gives the C and the C++ section one aliased options mapping: the contexts does not report the file's value (c: override 2, cpp: 1)",
+                 {"file": p.read_text(), "override": {"zz_shared": 2, "zz_only_c": True}, "c.zz_shared, cpp.zz_shared, cpp.zz_only_c": list(map(str, got))})
+    elif got != (2, 1, "absent"):
         ctx.fail({"kind": "alias-leak", "via": "builder"},
                  "an override for the target language shows in another language whose options came from the same aliased YAML mapping",
                  {"file": p.read_text(), "override": {"zz_shared": 2, "zz_only_c": True}, "c.zz_shared, cpp.zz_shared, cpp.zz_only_c": list(map(str, got))})
